@@ -137,7 +137,7 @@ Result validate(const Property &property) {
         could(property, &Property::valueCount, notFalse(), {
             should(property, &Property::unit, notFalse(), "values are set, but unit is missing!") }),
         could(property, &Property::unit, notFalse(), {
-            must(property, &Property::unit, isValidUnit(), "Unit is not SI or composite of SI units.") })
+            should(property, &Property::unit, isValidUnit(), "Unit is not SI or composite of SI units.") })
         // TODO: dataType to be tested too?
     });
 
